@@ -6,7 +6,7 @@ P("C39",
   technique="Coq proof (structural induction over byte strings, maps and archive entry lists; sorted-permutation uniqueness for the "
             "map-iteration oracle) + exact model/impl correspondence by vm_compute",
   level_text="c39_no_escape: for EVERY request string, what code_read / code_ls / /api/code/read accept is a valid, non-escaping path and any content "
-             "served is the content recorded under exactly that key; c39_only_recorded: every key of the served tree comes from a recorded archive entry "
+             "served is the content recorded under exactly that key; c39_listing_only_recorded: a listing names only recorded keys; c39_only_recorded: every key of the served tree comes from a recorded archive entry "
              "and is valid, for every map-iteration order; c39_archive_deterministic: WriteArchive's entry list is independent of the iteration "
              "oracle; c39_archive_roundtrip; c39_caps: ReadArchive never returns a file above the per-file cap or a total above the archive cap. "
              "PARTIAL: tar/gzip encoding and decoding are assumed (the model works on decoded entries), RE2 matching is tied for literal queries only.",
